@@ -274,8 +274,9 @@ class Gen:
         sid = "a" if r.random() < 0.75 else "b"
         ref = orc.ref.get(sid, {})
         hk = r.randrange(self.nk)
-        if ref and r.random() < 0.5:
-            hk = r.choice(sorted(ref))
+        live = sorted(h for h in ref if h != 1000)
+        if live and r.random() < 0.5:
+            hk = r.choice(live)
         w = r.random() * 100
         if w < 30:
             k = self.key(hk)
@@ -302,6 +303,8 @@ class Gen:
         if w < 74:
             return "compact %s" % sid
         if w < 77:
+            if getattr(self, "pinned", False):
+                return "compact %s" % sid       # churn profile: the first table is never transferred
             return "xfer a b" if r.random() < 0.7 else "xfer b a"
         if w < 80:
             return "scan %s 0 %d %s" % (sid, r.choice([1, 2, 3, 10, 1000]), r.choice(["*", "*", "61", "62", "6131"]))
@@ -320,27 +323,65 @@ class Gen:
             return self.tick()
         return "dump %s" % sid
 
+    def age(self, sid):
+        """compaction to completion, let every recycled table idle out, compaction again (the sweep)"""
+        for _ in range(200):
+            rep = yield "compact %s" % sid
+            if not rep.startswith("more"):
+                break
+        rep = yield "stats %s" % sid
+        before = int(rep.split()[4]) if len(rep.split()) == 5 else 0
+        self.now += self.idle + 10**6
+        yield "clock %d" % self.now
+        yield "compact %s" % sid
+        rep = yield "stats %s" % sid
+        after = int(rep.split()[4]) if len(rep.split()) == 5 else 0
+        if after < before:
+            self.orc_hit("sweep_freed_table")
+        yield "dump %s" % sid
+        yield from self.walk(sid, "*")
+
+    def walk(self, sid, pat):
+        cnt = self.rng.choice([1, 2, 3, 7, 1000])
+        rep = yield "scan %s 0 %d %s" % (sid, cnt, pat)
+        for _ in range(2000):
+            if rep.split()[0] in ("0", "nf", "hang", "dead") or rep.startswith("panic"):
+                break
+            rep = yield "scan %s @ %d %s" % (sid, cnt, pat)
+
     def episode(self, orc, nops):
+        self.orc_hit = orc.hit
         """coroutine: yields ops, receives the implementation's reply."""
         for op in self.start():
             yield op
+        self.pinned = self.rng.random() < 0.5
+        if self.pinned:
+            # a pinned, never-touched key that keeps the first table (coefficient 0) alive and under
+            # the compaction threshold for the whole episode
+            k = b"a1000"
+            n = (self.T * 62) // 100 - 29 - len(k)
+            yield "put a 1000 %s %s 0 1" % (hx(k), hx(b"\x50" * n))
+            orc.hit("pinned_first_table")
         for _ in range(nops):
+            if self.rng.random() < 0.01:
+                yield from self.age(self.rng.choice(["a", "b"]))
             yield self.next(orc)
         # closing: dumps, compaction to completion, full scan walks with and without a pattern
         r = self.rng
         for sid in ("a", "b"):
             yield "dump %s" % sid
+            yield from self.age(sid)
             for _ in range(400):
                 rep = yield "compact %s" % sid
                 if not rep.startswith("more"):
                     break
             yield "stats %s" % sid
             for pat in ("*", r.choice(["61", "62"])):
-                cnt = r.choice([1, 2, 3, 7, 1000])
-                rep = yield "scan %s 0 %d %s" % (sid, cnt, pat)
-                for _ in range(2000):
-                    if rep.split()[0] in ("0", "nf", "hang", "dead") or rep.startswith("panic"):
-                        break
-                    rep = yield "scan %s @ %d %s" % (sid, cnt, pat)
+                yield from self.walk(sid, pat)
             yield "range %s" % sid
             yield "dump %s" % sid
+
+
+HEADER = 4
+REQUIRED_SHAPES = ["overwrite", "delete_present", "xfer_table", "compaction_step", "scan_walk_done",
+                   "size_eq_table", "sweep_freed_table", "pinned_first_table", "xfer_merge_current_wins", "xfer_merge_incoming_wins"]
